@@ -15,10 +15,10 @@ from psvc.contract import Contract, Clause, register, T, And, Or, Not, Implies, 
 from psvc import spec, sym, ghost
 
 
-def make_solution(ps, P, shape):
+def make_solution(ps, P, shape, **pb_kwargs):
     """a SchedulingSolution as build_solution produces them, with symbolic times.
     shape: list of (kind, scheduled) with kind F|Z ; one worker 'w' holding the scheduled non-zero tasks"""
-    pb = ps.SchedulingProblem(name="pb", horizon=20)
+    pb = ps.SchedulingProblem(name="pb", horizon=20, **pb_kwargs)
     sol_mod = ps.solution if hasattr(ps, "solution") else None
     TaskSolution, ResourceSolution, SchedulingSolution = sol_mod.TaskSolution, sol_mod.ResourceSolution, sol_mod.SchedulingSolution
     sol = SchedulingSolution(problem=pb)
@@ -195,6 +195,13 @@ class ExcelExport(Contract):
         for (r, c1, c2, t) in draws + tdraws:
             fr.append(T(c1) >= 1)
         out.append(Clause("frame[the name column is written once per row and never overwritten]", And(*fr), props=("C16",), kind="frame", bounded=self.bounded))
+        # --- xlsxwriter drops a merge of a single cell (warning "Can't merge single cell", nothing written):
+        #     every merged range the export asks for spans two cells or more
+        mr = []
+        for name, meth, a, k in log:
+            if meth == "merge_range" and name.startswith("sheet:"):
+                mr.append(Or(z3.BoolVal(a[0] != a[2]), T(a[3]) > T(a[1])))
+        out.append(Clause("writes[no single-cell merge: xlsxwriter would drop it]", And(*mr), props=("C16",), kind="state", bounded=self.bounded))
         # --- indicators
         iv = cells_of(log, "Indicators")
         body = [(r, c1, t) for (r, c1, c2, t) in iv if not (isinstance(r, int) and r == 0) and not isinstance(r, str)]
